@@ -145,6 +145,57 @@ for (n, ft, isf, tier) in [('double', 'double', '0', 'quick'), ('float', 'float'
 UNITS.append(Unit('rounding', 'C17', C, extracts=X_ALL, insts=[('r', 'quick', {'FTYPE': 'double', 'F_IS_FLOAT': '0'})],
                   checks=[Check('iround_f', 'h0_iround_f', enforce='iround_f', flags=FL), Check('iround_d', 'h0_iround_d', enforce='iround_d', flags=FL),
                           Check('ifloor_f', 'h0_ifloor_f', enforce='ifloor_f', flags=FL), Check('ifloor_d', 'h0_ifloor_d', enforce='ifloor_d', flags=FL)]))
+
+# ---------------------------------------------------------------------------------------------------------------------------------------
+# detail::cast_channel_fn (the last step of the bilinear sampler: accumulator channel -> source pixel channel)
+X_CAST = [X('cast_channel', SA, r'void operator\(\)\(const SrcChannel& src, DstChannel& dst\)\s*\{', within=r'struct cast_channel_fn \{', count=1,
+            rules=[('R6.alias', r'using dst_value_t = typename channel_traits<DstChannel>::value_type;', 'typedef DST_T dst_value_t;', True),
+                   ('R8.is_integral', r'std::is_integral<dst_value_t>::value', 'DST_IS_INTEGRAL', False),
+                   ('R4.cast_dst', r'\bdst_value_t\(', '(dst_value_t)(', True), ('R4.cast_src', r'\bSrcChannel\(', '(SrcChannel)(', False),
+                   ('R9.ref_assign', r'(?<![\w.>\[])dst = (?!=)', '*dst = ', True)])]
+C_CAST = r'''
+typedef SRC_T SrcChannel; typedef DST_T DstChannel;
+/* ghost integers bracketing the accumulator: the values of the (up to four) surrounding source pixels lie in [g_lo, g_hi] */
+int64_t g_lo, g_hi;
+void cast_channel(SrcChannel src, DstChannel* dst)
+__CPROVER_requires(__CPROVER_is_fresh(dst, sizeof(*dst)))
+__CPROVER_requires((SrcChannel)DST_MIN <= src && src <= (SrcChannel)DST_MAX)            /* a convex combination of channel values stays in the channel's range */
+__CPROVER_requires(DST_MIN <= g_lo && g_lo <= g_hi && g_hi <= DST_MAX)
+__CPROVER_assigns(*dst)
+__CPROVER_ensures(IMPLIES(src == (SrcChannel)(int64_t)src, *dst == (int64_t)src))      /* an accumulator holding an integral value (sampling at integer coordinates) is reproduced exactly */
+__CPROVER_ensures(IMPLIES((SrcChannel)g_lo <= src && src <= (SrcChannel)g_hi, g_lo <= *dst && *dst <= g_hi))   /* the result stays inside the hull of the surrounding source values */
+@@cast_channel@@
+#ifndef VERIF_NATIVE
+void h_cast_channel(void){ SrcChannel s; DstChannel* d; int64_t lo, hi; g_lo = lo; g_hi = hi; cast_channel(s, d); __CPROVER_assert(0, "VACUITY"); }
+#endif
+'''
+PROBE_CAST = r'''
+  P_TYPE("SRC_T", SRCCH); P_TYPE("DST_T", DSTCH); P_VAL("DST_MIN", (long long)std::numeric_limits<DSTCH>::min()); P_VAL("DST_MAX", (long long)std::numeric_limits<DSTCH>::max());
+  P_VAL("DST_IS_INTEGRAL", (int)std::is_integral<DSTCH>::value);
+'''
+REPLAY_CAST = r'''
+#include <boost/gil.hpp>
+#include <boost/gil/extension/numeric/sampler.hpp>
+#include "vreplay.hpp"
+using namespace boost::gil;
+#include "inst.hpp"
+int main(int argc, char** argv){ vr::parse(argc, argv);
+  // bilinear sampling of a constant image of the instantiation's channel type, for a spread of constants: the result is the constant
+  using px_t = pixel<DSTCH, gray_layout_t>; using img_t = image<px_t, false>;
+  for (long long c : {(long long)std::numeric_limits<DSTCH>::min(), -100LL, -1LL, 0LL, 1LL, 100LL, (long long)std::numeric_limits<DSTCH>::max()}) {
+    if (c < (long long)std::numeric_limits<DSTCH>::min() || c > (long long)std::numeric_limits<DSTCH>::max()) continue;
+    img_t img(3, 3, px_t((DSTCH)c));
+    for (double x : {0.0, 1.0, 0.5, 1.25}) for (double y : {0.0, 1.0, 0.75}) { px_t r((DSTCH)0); point<double> p{x, y};
+      if (sample(bilinear_sampler(), const_view(img), p, r) && r[0] != (DSTCH)c) REPRODUCED("bilinear sample of a constant image (all pixels %lld) at (%g,%g) returned %lld", c, x, y, (long long)r[0]); } }
+  NOT_REPRODUCED("bilinear sampling of constant images returns the constant"); }
+'''
+for (n, srct, dstt) in [('f32_s8', 'float', 'std::int8_t'), ('f32_u8', 'float', 'std::uint8_t'), ('f32_s16', 'float', 'std::int16_t'), ('f32_u16', 'float', 'std::uint16_t'), ('f64_s32', 'double', 'std::int32_t')]:
+    UNITS.append(Unit('cast.' + n, 'C17', C_CAST, extracts=X_CAST, probe=PROBE_CAST, probe_includes=['boost/gil.hpp', 'limits', 'type_traits'], replay=REPLAY_CAST,
+                      insts=[(n, 'quick', {'T_SRCCH': srct, 'T_DSTCH': dstt})],
+                      checks=[Check('cast_channel', 'h_cast_channel', enforce='cast_channel', flags=FL, timeout=600)],
+                      preconditions=['the accumulator lies in the range of the destination channel (convex combination of channel values)'],
+                      assumed=['cast_pixel applies cast_channel_fn to every channel (static_for_each)']))
+
 C = C.replace('#ifndef VERIF_NATIVE\n#define SETUP()', '''#ifndef VERIF_NATIVE
 void h0_iround_f(void){ float x; iround_f(x); __CPROVER_assert(0, "VACUITY"); }
 void h0_iround_d(void){ double x; iround_d(x); __CPROVER_assert(0, "VACUITY"); }
@@ -152,6 +203,7 @@ void h0_ifloor_f(void){ float x; ifloor_f(x); __CPROVER_assert(0, "VACUITY"); }
 void h0_ifloor_d(void){ double x; ifloor_d(x); __CPROVER_assert(0, "VACUITY"); }
 #define SETUP()''')
 for u in UNITS:
-    u.template = C
+    if not u.name.startswith('cast.'):
+        u.template = C
 META = dict(not_covered=['resample_pixels driver loop, resize_view identity, matrix3x2 algebra (floating-point identities up to rounding), lanczos scaling',
                          'the VALUE of the interpolation (weights times pixel values) beyond weights in [0,1] summing to 1 at neighbouring positions'])
